@@ -99,6 +99,18 @@ func c05Scenarios() []c05scn {
 			pbQuick: 2, pbThor: 3,
 		},
 		{
+			// the resolver supplies its own google/protobuf/descriptor.proto as source: files that do
+			// not import it depend on it implicitly (compiler.go asFile, wantsDescriptorProto)
+			name: "override-descriptor",
+			files: fileSet{
+				"a.proto": "syntax = \"proto2\";\npackage p;\noption java_package = \"x\";\nmessage A { optional int32 x = 1; }\n",
+				"b.proto": "syntax = \"proto2\";\npackage q;\nimport \"a.proto\";\nmessage B { optional p.A a = 1; }\n",
+				"google/protobuf/descriptor.proto": minimalDescriptorProto,
+			},
+			request: [][]string{{"a.proto"}, {"a.proto", "b.proto"}},
+			pbQuick: 2, pbThor: 3,
+		},
+		{
 			name: "symbol-collision",
 			files: fileSet{
 				"r1.proto": p2("p", "message Same { optional int32 x = 1; }\n"),
@@ -124,7 +136,7 @@ func c05Scenarios() []c05scn {
 }
 
 func runC05(h *hx.H) {
-	h.Rule = "import-graph scenarios (chain, diamond, fan-out, public re-export, shared dependency, colliding roots) x MaxParallelism 1..3 x every permutation of the requested names x all schedules within the preemption bound; oracle: success flag and per-file descriptor digests equal the sequential reference run; non-trivial = execution with >=1 deviation reaching a new canonical state"
+	h.Rule = "import-graph scenarios (chain, diamond, fan-out, public re-export, shared dependency, a resolver that supplies its own descriptor.proto as source, colliding roots) x MaxParallelism 1..3 x every permutation of the requested names x all schedules within the preemption bound; oracle: success flag and per-file descriptor digests equal the sequential reference run; non-trivial = execution with >=1 deviation reaching a new canonical state"
 	h.Assumptions = append(h.Assumptions, "error text and partial results of failed compiles are not compared (which colliding file is blamed legitimately depends on order)")
 	for _, sc := range c05Scenarios() {
 		for _, req := range sc.request {
@@ -218,3 +230,11 @@ func builtDescs(sc c05scn) map[string]protoreflect.FileDescriptor {
 	}
 	return out
 }
+
+// minimalDescriptorProto is a small stand-in for descriptor.proto that a resolver may supply.
+const minimalDescriptorProto = `syntax = "proto2";
+package google.protobuf;
+message FileOptions { optional string java_package = 1; extensions 1000 to max; }
+message MessageOptions { optional bool deprecated = 3; extensions 1000 to max; }
+message FieldOptions { optional bool deprecated = 3; extensions 1000 to max; }
+`
